@@ -54,15 +54,15 @@ theorem root_mirror (q : Prob) (px : ℝ) :
 The driver evaluates all five at `px = pr`; for the mirrored problem that is the original `pl`. -/
 
 theorem uSCN_mirror (q : Prob) : uSCN q.mirror q.pl = uNCS q q.pr - q.ul - q.ur := by
-  simp only [uSCN, uNCS, Prob.mirror, epv_tree, epv_leaf]; ring
+  simp only [uSCN_eq, uNCS_eq, Prob.mirror]; ring
 theorem uNCS_mirror (q : Prob) : uNCS q.mirror q.pl = uSCN q q.pr - q.ul - q.ur := by
-  simp only [uSCN, uNCS, Prob.mirror, epv_tree, epv_leaf]; ring
+  simp only [uSCN_eq, uNCS_eq, Prob.mirror]; ring
 theorem uNCR_mirror (q : Prob) : uNCR q.mirror q.pl = uRCN q q.pr - q.ul - q.ur := by
-  simp only [uNCR, uRCN, Prob.mirror, epv_tree, epv_leaf]; ring
+  simp only [uNCR_eq, uRCN_eq, Prob.mirror]; ring
 theorem uRCN_mirror (q : Prob) : uRCN q.mirror q.pl = uNCR q q.pr - q.ul - q.ur := by
-  simp only [uNCR, uRCN, Prob.mirror, epv_tree, epv_leaf]; ring
+  simp only [uNCR_eq, uRCN_eq, Prob.mirror]; ring
 theorem uRCVR_mirror (q : Prob) : uRCVR q.mirror q.pl = uRCVR q q.pr - q.ul - q.ur := by
-  simp only [uRCVR, Prob.mirror, epv_tree, epv_leaf]; ring
+  simp only [uRCVR_eq, Prob.mirror]; ring
 
 /-- the chain selects the mirror-image pattern when the thresholds are exchanged as
 `u*_mirror` say; on the boundary pl = pr the four inner thresholds coincide -/
@@ -93,7 +93,7 @@ theorem thresholds_eq (q : Prob) (hp : q.pl ≠ 0) (h : q.pl = q.pr) :
     uSCN q q.pr = uNCS q q.pr ∧ uNCS q q.pr = uNCR q q.pr ∧ uNCR q q.pr = uRCN q q.pr := by
   have h1 : q.pr / q.pl = 1 := by rw [← h]; exact div_self hp
   have h2 : q.pl / q.pr = 1 := by rw [← h]; exact div_self hp
-  simp only [uSCN, uNCS, uNCR, uRCN, epv_tree, epv_leaf, h1, h2, Real.one_rpow, sub_self, mul_zero, zero_div,
+  simp only [uSCN_eq, uNCS_eq, uNCR_eq, uRCN_eq, h1, h2, Real.one_rpow, sub_self, mul_zero, zero_div,
     sub_zero, add_zero, mul_div_assoc]
   simp
 
@@ -162,15 +162,15 @@ theorem rcr_boost (q : Prob) (v px : ℝ) : RCR (q.boost v) px = RCR q px := by
     rare_u px q.pr q.rr (-q.ur), rare_u px q.pl q.rl q.ul]; ring
 
 theorem uSCN_boost (q : Prob) (v px : ℝ) : uSCN (q.boost v) px = uSCN q px + v := by
-  simp only [uSCN, Prob.boost, epv_tree, epv_leaf]; ring
+  simp only [uSCN_eq, Prob.boost]; ring
 theorem uNCS_boost (q : Prob) (v px : ℝ) : uNCS (q.boost v) px = uNCS q px + v := by
-  simp only [uNCS, Prob.boost, epv_tree, epv_leaf]; ring
+  simp only [uNCS_eq, Prob.boost]; ring
 theorem uNCR_boost (q : Prob) (v px : ℝ) : uNCR (q.boost v) px = uNCR q px + v := by
-  simp only [uNCR, Prob.boost, epv_tree, epv_leaf]; ring
+  simp only [uNCR_eq, Prob.boost]; ring
 theorem uRCN_boost (q : Prob) (v px : ℝ) : uRCN (q.boost v) px = uRCN q px + v := by
-  simp only [uRCN, Prob.boost, epv_tree, epv_leaf]; ring
+  simp only [uRCN_eq, Prob.boost]; ring
 theorem uRCVR_boost (q : Prob) (v px : ℝ) : uRCVR (q.boost v) px = uRCVR q px + v := by
-  simp only [uRCVR, Prob.boost, epv_tree, epv_leaf]; ring
+  simp only [uRCVR_eq, Prob.boost]; ring
 
 theorem chain_boost (pl pr ur a b c d e v : ℝ) :
     chain pl pr (ur + v) (a + v) (b + v) (c + v) (d + v) (e + v) = chain pl pr ur a b c d e := by
